@@ -199,6 +199,11 @@ fn two_host_world(cap: usize) -> World {
 
 /// peer: 0 = remote host, 1 = same host through its own address, 2 = same host through 127.0.0.1
 fn teardown(peer: u8, unread: bool, shutdown_first: bool, read_half_first: bool) -> (usize, usize) {
+    teardown_ex(peer, unread, shutdown_first, read_half_first, false)
+}
+/// `queued_fin`: the peer has already shut down its write side; its FIN sits unread in the receive
+/// queue when the stream is dropped. That is NOT unread data: the close stays graceful.
+fn teardown_ex(peer: u8, unread: bool, shutdown_first: bool, read_half_first: bool, queued_fin: bool) -> (usize, usize) {
     let mut world = two_host_world(2);
     let pair = match peer {
         0 => SocketPair::new(SocketAddr::new(IP_A, 49152), SocketAddr::new(IP_B, 80)),
@@ -207,6 +212,15 @@ fn teardown(peer: u8, unread: bool, shutdown_first: bool, read_half_first: bool)
     };
     let (rx, bidi) = world.hosts.get_mut(&IP_A).unwrap().tcp.new_stream(pair);
     world.current = Some(IP_A);
+    if queued_fin {
+        let r = world.hosts.get_mut(&IP_A).unwrap().receive_from_network(crate::envelope::Envelope {
+            src: pair.remote,
+            dst: pair.local,
+            message: Protocol::Tcp(Segment::Fin(1)),
+        });
+        assert!(r.is_ok(), "the FIN is taken");
+        std::mem::forget(r);
+    }
     let stream = TcpStream::new(pair, rx, bidi);
     let TcpStream { mut read_half, mut write_half } = stream;
     if unread {
@@ -273,6 +287,17 @@ crate::verif_proof! { unwind = 8;
 fn c12_dropped_stream_graceful_close_sends_one_fin() {
     let (f, r) = teardown(0, false, false, false);
     kani::cover!(f == 1 && r == 0, "one FIN");
+}
+}
+// a FIN that is still queued unread is not unread DATA: dropping the stream stays a graceful close
+// (seed C02-5: `!recv.is_empty()` instead of "a Data segment is queued" turned it into a reset)
+// (no verdict in 900 s, measured: `Host::receive_from_network` on a World adds the whole receive path;
+// unshipped - seed C02-5 stays undetected)
+// @verif id=C12,C02 tier=unshipped role=stream_teardown timeout=900 mem=12 vt=1 desc=remote-peer,peer-FIN-queued-unread,read-half-dropped-first
+crate::verif_proof! { unwind = 8;
+fn c12_dropping_a_stream_whose_peer_already_sent_fin_is_still_graceful() {
+    let (f, r) = teardown_ex(0, false, false, true, true);
+    kani::cover!(f == 1 && r == 0, "one FIN, no RST");
 }
 }
 // @verif id=C12 tier=thorough role=stream_teardown timeout=900 mem=12 vt=1 desc=same-host(own-address),unread-data,write-half-dropped-first
